@@ -27,8 +27,8 @@ Mutants (checks/mutants/C17), stage that catches each on the quick tier:
 import os, json
 import vp
 
-ITERS_Q = "{0, 1, 2, 10, 150}"
-ITERS_T = "{0, 1, 2, 10, 150, 2500, 65535}"
+ITERS_Q = "{0, 1, 2, 10, 150, 255, 256, 65534, 65535}"
+ITERS_T = "{0, 1, 2, 10, 150, 255, 256, 2500, 65534, 65535}"
 
 
 def safe_scratch(ctx):
@@ -111,7 +111,7 @@ def run(ctx):
     jobs = []
     for mode in ("keytag", "ds", "nsec3", "cover", "validity"):
         def job(mode=mode):
-            counts[mode] = gen(ctx, binp, "Gen_Dnssec17", {"Mode": '"%s"' % mode, "Iters": iters, "KSmall": 5 if ctx.quick else 8}, mode)
+            counts[mode] = gen(ctx, binp, "Gen_Dnssec17", {"Mode": '"%s"' % mode, "Iters": iters, "KSmall": 5 if ctx.quick else 8, "BigNames": 2 if ctx.quick else 4}, mode)
         jobs.append(job)
 
     def kljob():
